@@ -20,6 +20,7 @@ from vlib.symwalk import SymInterp
 from vlib.sym import Lin, equal, NF
 from vlib.fx import P, K, O, L, R, U, A
 from vlib.fxmodel import make_fx, effect_sites, check_find_path_anchor
+from vlib.pat import Pat, returned
 from vlib.front import unparse, dotted, const_value, AnchorMissing
 
 MG = 'phylib/io/merge.py'
@@ -71,32 +72,58 @@ def helpers(ctx):
     repo = ctx.repo
     # _concat: np.concatenate(arrs) along the first axis in the given order
     fc = repo.func(MG, '_concat')
-    r = [x for x in fc.returns() if x.value is not None]
-    ok = False
-    if r:
-        e = r[-1].value
+    rv = [x for _, x in returned(fc)]
+    ok = und = False
+    bad_why = ''
+    if rv:
+        e = rv[-1]
         while isinstance(e, ast.Call) and q.method_name(e) == 'astype' and isinstance(e.func, ast.Attribute):
             e = e.func.value
-        if isinstance(e, ast.Call) and dotted(e.func) == 'np.concatenate' and e.args and unparse(e.args[0]) == fc.params[0]:
+        if isinstance(e, ast.Call) and dotted(e.func) in ('np.concatenate', 'np.hstack', 'np.r_') and e.args:
             ax = q.arg(e, 1, 'axis')
-            ok = ax is None or const_value(ax) == 0 or unparse(ax) == 'axis' and const_value(fc.defaults().get('axis')) == 0
-    ctx.check(ok, 'C11.A1', fc, r[-1] if r else '_concat', '_concat joins the arrays along the first axis in the order given',
-              '_concat does not join its arguments along the first axis in the order given')
+            same_order = unparse(e.args[0]) == fc.params[0] or Pat().any(['list(%s)' % fc.params[0], 'tuple(%s)' % fc.params[0]], e.args[0])
+            ok = same_order and (ax is None or const_value(ax) == 0 or unparse(ax) == 'axis' and const_value(fc.defaults().get('axis')) == 0)
+            if not ok:
+                bad_why = unparse(e)
+        else:
+            und = True
+    else:
+        und = True
+    if ok:
+        ctx.holds('C11.A1', fc, '_concat joins the arrays along the first axis in the order given', rv[-1])
+    elif und:
+        ctx.undecided('C11.A1', fc, '_concat not in a recognised form')
+    else:
+        ctx.violated('C11.A1', fc, rv[-1], '_concat does not join its arguments along the first axis in the order given (`%s`)' % bad_why)
     # _load_multiple_files: [np.load(subdir / fn) ... for subdir in subdirs] in order, no memory map
     fl = repo.func(MG, '_load_multiple_files')
-    r = [x for x in fl.returns() if x.value is not None]
-    ok = ok_mm = False
-    if r and isinstance(r[-1].value, ast.ListComp):
-        lc = r[-1].value
+    rv = [x for _, x in returned(fl)]
+    lcs = [x for x in rv if isinstance(x, ast.ListComp)]
+    if not lcs:
+        ctx.undecided('C11.A1', fl, '_load_multiple_files is not a list comprehension over the directories')
+    else:
+        lc = lcs[-1]
         g = lc.generators[0]
-        loads = [c for c in ast.walk(lc.elt) if isinstance(c, ast.Call) and dotted(c.func) == 'np.load']
-        ok = unparse(g.iter) == fl.params[1] and not g.ifs and len(lc.generators) == 1 and bool(loads) and \
-            unparse(loads[0].args[0]).replace(' ', '') in ('str(%s/%s)' % (unparse(g.target), fl.params[0]), '%s/%s' % (unparse(g.target), fl.params[0]))
-        ok_mm = bool(loads) and (q.kwarg(loads[0], 'mmap_mode') is None or const_value(q.kwarg(loads[0], 'mmap_mode')) is None)
-    ctx.check(ok, 'C11.A1', fl, r[-1] if r else '_load_multiple_files', 'the same file is loaded from every input directory, in the order of the directories',
-              '_load_multiple_files does not load <dir>/<file> for every directory in order')
-    ctx.check(ok_mm, 'C11.F1', fl, r[-1] if r else '_load_multiple_files', 'input arrays are loaded into memory (no memory map): in-place arithmetic touches copies',
-              'input arrays are memory-mapped: in-place renumbering can reach the input files')
+        loads = [c for c in ast.walk(lc.elt) if isinstance(c, ast.Call) and dotted(c.func) in ('np.load', 'read_array', '_read_array')]
+        tv = unparse(g.target)
+        path_ok = bool(loads) and loads[0].args and Pat().any(['str(%s / %s)' % (tv, fl.params[0]), '%s / %s' % (tv, fl.params[0]), 'os.path.join(%s, %s)' % (tv, fl.params[0]),
+                                                              'Path(%s) / %s' % (tv, fl.params[0])], loads[0].args[0])
+        iter_ok = Pat().m(fl.params[1], g.iter) and not g.ifs and len(lc.generators) == 1
+        iter_bad = not iter_ok and (bool(g.ifs) or any(isinstance(n, ast.Call) and (dotted(n.func) or '') in ('sorted', 'reversed', 'set') for n in ast.walk(g.iter)) or
+                                   (isinstance(g.iter, ast.Subscript) and fl.params[1] in q.names_in(g.iter)))
+        if iter_ok and path_ok:
+            ctx.holds('C11.A1', fl, 'the same file is loaded from every input directory, in the order of the directories', lc)
+        elif iter_bad or (bool(loads) and loads[0].args and not path_ok and {n.id for n in ast.walk(loads[0].args[0]) if isinstance(n, ast.Name)} <= {tv, fl.params[0], 'str', 'Path', 'os'}):
+            ctx.violated('C11.A1', fl, lc, '_load_multiple_files does not load <dir>/<file> for every directory in order (`%s`)' % unparse(lc)[:100])
+        else:
+            ctx.undecided('C11.A1', fl, '_load_multiple_files: comprehension not in a recognised form', lc)
+        mm = q.kwarg(loads[0], 'mmap_mode') if loads else None
+        if loads and (mm is None or const_value(mm) is None):
+            ctx.holds('C11.F1', fl, 'input arrays are loaded into memory (no memory map): in-place arithmetic touches copies', loads[0])
+        elif loads:
+            ctx.violated('C11.F1', fl, loads[0], 'input arrays are memory-mapped (%s): in-place renumbering can reach the input files' % unparse(mm))
+        else:
+            ctx.undecided('C11.F1', fl, 'load call of _load_multiple_files not recognised')
     # _load_multiple_spike_times
     ft = repo.func(MG, '_load_multiple_spike_times')
     I = MI(repo, unroll=1, inline_depth=0)
@@ -291,7 +318,7 @@ def s1_offsets(ctx):
     ctx.check('cluster_probes.npy' in names, 'C11.S1', f, 'cluster_probes.npy', 'the per-cluster probe table is saved', 'cluster_probes.npy is not saved')
     # write_cluster_data: keys shifted by the cluster offsets of their probe
     g = repo.lookup_method(cls, 'write_cluster_data')
-    okz = False
+    okz = undz = False
     node = None
     for lp2 in g.nodes(ast.For):
         if isinstance(lp2.iter, ast.Call) and dotted(lp2.iter.func) == 'zip':
@@ -299,14 +326,37 @@ def s1_offsets(ctx):
             if 'self.subdirs' in zs:
                 node = lp2
                 okz = zs == ['self.subdirs', 'self.cluster_offsets'] and isinstance(lp2.target, ast.Tuple)
+                undz = False
                 if okz:
                     dv, ov = (unparse(x) for x in lp2.target.elts)
                     rd = [c for c in ast.walk(lp2) if isinstance(c, ast.Call) and dotted(c.func) == '_read_tsv_simple']
                     st_ = [a for a in ast.walk(lp2) if isinstance(a, ast.Assign) and isinstance(a.targets[0], ast.Subscript)]
-                    okz = bool(rd) and dv in unparse(rd[0].args[0]) and bool(st_) and unparse(st_[0].targets[0].slice).replace(' ', '') in ('k+%s' % ov, '%s+k' % ov) \
-                        and unparse(st_[0].value) == 'v'
-    ctx.check(okz, 'C11.S1', g, node or 'write_cluster_data', 'per-cluster metadata of probe k is re-keyed with the cluster offset of probe k, values unchanged',
-              'cluster metadata is not re-keyed as id + cluster offset of its own probe')
+                    items = [f for f in ast.walk(lp2) if isinstance(f, ast.For) and f is not lp2 and isinstance(f.iter, ast.Call) and q.method_name(f.iter) == 'items' and isinstance(f.target, ast.Tuple)]
+                    if not rd or not st_ or not items:
+                        undz = True
+                    else:
+                        kv, vv = (unparse(x) for x in items[0].target.elts)
+                        okz = dv in unparse(g.expand(rd[0].args[0])) and Pat().m('%s + %s' % (kv, ov), g.expand(st_[0].targets[0].slice)) and unparse(st_[0].value) == vv
+    # positional pairing: the offsets of ALL probes are zipped with ALL probes (a filtered / re-ordered list of directories shifts every later probe to a wrong offset)
+    misaligned = None
+    for lp2 in g.nodes(ast.For):
+        if isinstance(lp2.iter, ast.Call) and dotted(lp2.iter.func) == 'zip' and any(unparse(a) == 'self.cluster_offsets' for a in lp2.iter.args):
+            for a in lp2.iter.args:
+                if unparse(a) in ('self.cluster_offsets', 'self.subdirs'):
+                    continue
+                ax = g.expand(a)
+                if isinstance(ax, (ast.ListComp, ast.GeneratorExp)) and 'self.subdirs' in unparse(ax.generators[0].iter) and ax.generators[0].ifs:
+                    misaligned = (lp2, ax)
+                elif isinstance(ax, ast.Call) and dotted(ax.func) in ('filter', 'sorted', 'reversed') and 'self.subdirs' in unparse(ax):
+                    misaligned = (lp2, ax)
+    if misaligned is not None:
+        ctx.violated('C11.S1', g, misaligned[0].iter, 'the cluster offsets of all probes are zipped with a filtered / re-ordered list of the input directories (`%s`): after the first '
+                     'probe that is left out, every probe gets the offset of another probe' % unparse(misaligned[1])[:90])
+    elif node is None or (okz is False and undz):
+        ctx.undecided('C11.S1', g, 're-keying loop of the cluster metadata not recognised')
+    else:
+        ctx.check(okz, 'C11.S1', g, node or 'write_cluster_data', 'per-cluster metadata of probe k is re-keyed with the cluster offset of probe k, values unchanged',
+                  'cluster metadata is not re-keyed as id + cluster offset of its own probe')
 
 
 def f1_effects(ctx):
